@@ -5,6 +5,7 @@ CONSTANTS
   FailCs = {1}
   FailNs = {}
   PruneTs = {150}
+  RgsSnaps = {}
   WithReload = TRUE
 CONSTRAINT Bound
 VIEW View
